@@ -128,7 +128,7 @@ func (ps *PacketSpec) Same(k, id int, pt uint8, pkt *rtp.Packet) bool {
 
 // ReaderCfg selects a reading client's transport.
 type ReaderCfg struct {
-	Proto   string // "tcp" | "udp"
+	Proto   string // "tcp" | "udp" | "mcast" (the bed must offer multicast)
 	Tunnel  string // "" | "http" | "ws"
 	Timeout time.Duration
 	Reorder int   // percentage of inbound UDP datagrams swapped with their successor
@@ -166,6 +166,9 @@ func (b *Bed) NewReader(cfg ReaderCfg, path string, onPacket func(medi *descript
 	switch cfg.Proto {
 	case "udp":
 		p := gortsplib.ProtocolUDP
+		c.Protocol = &p
+	case "mcast":
+		p := gortsplib.ProtocolUDPMulticast
 		c.Protocol = &p
 	default:
 		p := gortsplib.ProtocolTCP
